@@ -8,6 +8,7 @@
       lv = a | lv = a ∘ b | lv ∘= a | lv++ | lv--     lv ::= v | t[i] | X | Y    a, b ::= n | v | t[i] | X | Y
       i ::= n | X | Y     ∘ ∈ {+, −, &, |, ^}          (stage 1: v only; stage 3: X and Y; stage 4: array elements)
       { S… } | if (c) S | if (c) S else S | while (c) S | do S while (c); | for (F; c; F) S   (stage 2)
+      break; | continue; | if (c) break; | if (c) continue;   inside loops                    (stage 5)
       c ::= a ⋈ b | lv | !lv | c && c | c || c | !c     ⋈ ∈ {==, !=, <, >=, >, <=}; no ordered comparison with
       literal 0, not two constants, not two registers, not `t[X] ⋈ X` (element subscripted by a register against a
       register on the right: the real generator compares the register with itself — recorded finding)
@@ -34,13 +35,19 @@
      address is that address whenever base + subscript stays inside the zero page (a subscript inside an array
      that does not straddle $FF/$100). Templates that depend on the array's placement (`STY t,X` exists only in
      the zero page) take the placement from the generator state (`GState.abs`), as the real generator does.
+   * stage 5 (`break`, `continue`): the source meaning has three outcomes (normal, break, continue); the theorem
+     says where the code arrives in each case — behind its last line, at the enclosing loop's break label, at
+     its continue label (`.whileN`, `.forupdateN`, `.dowhileconditionN` — the last one is emitted only when the
+     body has a `continue` of its own, and then forgets the flags: both are part of the port). The unbraced
+     `if (c) break;` is a form of its own (one branch to the loop's label, `.ifend` counter taken but unused).
+     `for` runs the update after a `continue` (`semFor`); C15 proves `for` ≡ `while` only for bodies without one.
    * `fresh_labels`: every label the generator defines is new (counter ranges), the fact behind the
      uniqueness of labels in emitted code (used again by C13).
    * `adc_after_clc`, `sbc_after_sec`, `negate_means_not`, `mirror_means_swap`: the arithmetic and
      operator-table facts the templates rest on.
   NOT covered by these theorems (covered by co-execution against CV.CSem in the check, partial):
   nested expressions, 16-bit values, arrays of 16-bit elements, subscripts that are memory operands, switch,
-  break/continue, calls, signed types, pointers; optimisation levels above -O0 (C02's subject).
+  calls, signed types, pointers; optimisation levels above -O0 (C02's subject).
 -/
 import CV.Proofs.GenStructMain
 import CV.Proofs.GenStructPure
@@ -82,21 +89,45 @@ theorem reg_stmt_correct (L : Layout) (zp : String → Bool) (st : RStmt) (fl : 
 
 /-! ### stage 2: structured control flow over those statements -/
 
-/-- structured statements in any context -/
-theorem struct_correct_in_context (L : Layout) (st : SStmt) (fuel : Nat) (σ σ' : SrcSt)
-    (hsem : sem L fuel σ st = some σ') (hfr : SInFragment st = true)
-    (g : GState) (pre post : List GLine) (s : Cpu)
-    (hold : Old g pre) (hm : srcOf s = σ) (hflags : FlagsInv L g.flags s) :
-    ∃ s', Steps L (pre ++ (gen g st).1 ++ post) pre.length s (pre.length + (gen g st).1.length) s' ∧
-      srcOf s' = σ' ∧ FlagsInv L (gen g st).2.flags s' ∧ s'.sp = s.sp :=
-  correct_all L fuel st σ σ' hsem hfr g pre post s hold hm hflags
+/-- structured statements in any context, inside any loop: the statement's code runs from its first line
+    * to just behind its last line when the source statement ends normally — the generator's flag belief holds;
+    * to the `continue` label / the `break` label of the enclosing loop when the source statement ends that way
+  (positions `tc`, `tb`: wherever the enclosing code has these labels), with the memory, X and Y of `sem` -/
+theorem struct_correct_in_context (L : Layout) (st : SStmt) (fuel : Nat) (σ : SrcSt) (out : Out)
+    (hsem : sem L fuel σ st = some out) (hfr : SInFragment st = true)
+    (lp : LoopCtx) (g : GState) (pre post : List GLine) (s : Cpu) (tc tb : Nat)
+    (hsc : Scoped lp.isSome st = true) (hold : Old g pre) (hm : srcOf s = σ) (hflags : FlagsInv L g.flags s)
+    (hlp : LoopOK lp (pre ++ (gen lp g st).1 ++ post) tc tb (contHere st)) :
+    ResultO L (pre ++ (gen lp g st).1 ++ post) pre.length s (pre.length + (gen lp g st).1.length) tc tb out (gen lp g st).2.flags :=
+  correct_all L fuel st σ out hsem hfr lp g pre post s tc tb hsc hold hm hflags hlp
 
-/-- a whole function body from its first line: a terminating run of the executable machine -/
-theorem struct_program_correct (L : Layout) (st : SStmt) (fuel : Nat) (σ σ' : SrcSt)
-    (hsem : sem L fuel σ st = some σ') (hfr : SInFragment st = true) (s : Cpu) (hm : srcOf s = σ) :
-    ∃ s' n, runG L (gen {} st).1 (gen {} st).1.length n 0 s = some s' ∧ srcOf s' = σ' ∧ s'.sp = s.sp := by
-  obtain ⟨s', hs, hmem, _, hsp⟩ :=
-    correct_all L fuel st σ σ' hsem hfr {} [] [] s (by intro l hl; simp at hl) hm trivial
+/-- a statement that ends by `continue` contains a `continue` of its own loop -/
+theorem sem_cont_has_continue (L : Layout) (f : Nat) (m : SrcSt) (st : SStmt) (m' : SrcSt)
+    (h : sem L f m st = some (.cont, m')) : contHere st = true := sem_cont_contHere L f m st m' h
+
+/-- the three cases of `ResultO`, spelled out -/
+theorem resultO_norm (L : Layout) (code : List GLine) (p q tc tb : Nat) (s : Cpu) (σ' : SrcSt) (fl : Option FRef)
+    (h : ResultO L code p s q tc tb (.norm, σ') fl) :
+    ∃ s', Steps L code p s q s' ∧ srcOf s' = σ' ∧ FlagsInv L fl s' ∧ s'.sp = s.sp := h
+theorem resultO_break (L : Layout) (code : List GLine) (p q tc tb : Nat) (s : Cpu) (σ' : SrcSt) (fl : Option FRef)
+    (h : ResultO L code p s q tc tb (.brk, σ') fl) :
+    ∃ s', Steps L code p s tb s' ∧ srcOf s' = σ' ∧ s'.sp = s.sp := h
+theorem resultO_continue (L : Layout) (code : List GLine) (p q tc tb : Nat) (s : Cpu) (σ' : SrcSt) (fl : Option FRef)
+    (h : ResultO L code p s q tc tb (.cont, σ') fl) :
+    ∃ s', Steps L code p s tc s' ∧ srcOf s' = σ' ∧ s'.sp = s.sp := h
+
+/-- a whole function body (no enclosing loop: every `break` / `continue` is inside a loop of the body) from its
+    first line: a terminating run of the executable machine -/
+theorem struct_program_correct (L : Layout) (st : SStmt) (fuel : Nat) (σ : SrcSt) (out : Out)
+    (hsem : sem L fuel σ st = some out) (hfr : SInFragment st = true) (hsc : Scoped false st = true)
+    (s : Cpu) (hm : srcOf s = σ) :
+    ∃ s' n, runG L (gen none {} st).1 (gen none {} st).1.length n 0 s = some s' ∧ srcOf s' = out.2 ∧ s'.sp = s.sp := by
+  have hn := scoped_norm L fuel σ st out hsem hsc
+  have := correct_all L fuel st σ out hsem hfr none {} [] [] s 0 0 hsc (by intro l hl; simp at hl) hm trivial trivial
+  obtain ⟨e, σ'⟩ := out
+  simp only at hn
+  subst hn
+  obtain ⟨s', hs, hmem, _, hsp⟩ := this
   simp only [List.nil_append, List.append_nil, List.length_nil, Nat.zero_add] at hs
   obtain ⟨n, hn⟩ := hs.runG rfl
   exact ⟨s', n, hn, hmem, hsp⟩
@@ -104,18 +135,24 @@ theorem struct_program_correct (L : Layout) (st : SStmt) (fuel : Nat) (σ σ' : 
 /-- the same against the plain reading of the source (`semPure`: no scratch cell anywhere): for a program that
     does not name the compiler's cell `cctmp`, the run ends with X, Y and every memory cell except `cctmp` as
     the source prescribes -/
-theorem struct_program_correct_pure (L : Layout) (st : SStmt) (fuel : Nat) (σ σ' : SrcSt)
-    (hsem : semPure L fuel σ st = some σ') (hfr : SInFragment st = true) (hn : NoTmp L st.names)
-    (s : Cpu) (hm : srcOf s = σ) :
-    ∃ s' n, runG L (gen {} st).1 (gen {} st).1.length n 0 s = some s' ∧ EqOff L (srcOf s') σ' ∧ s'.sp = s.sp := by
+theorem struct_program_correct_pure (L : Layout) (st : SStmt) (fuel : Nat) (σ : SrcSt) (out : Out)
+    (hsem : semPure L fuel σ st = some out) (hfr : SInFragment st = true) (hsc : Scoped false st = true)
+    (hn : NoTmp L st.names) (s : Cpu) (hm : srcOf s = σ) :
+    ∃ s' n, runG L (gen none {} st).1 (gen none {} st).1.length n 0 s = some s' ∧ EqOff L (srcOf s') out.2 ∧ s'.sp = s.sp := by
   have h := sem_pure L fuel σ σ st (EqOff.refl L σ) hn
   rw [hsem] at h
   cases hs : sem L fuel σ st with
   | none => simp [hs, OutEq] at h
-  | some σ'' =>
+  | some o =>
     rw [hs] at h
-    obtain ⟨s', n, hr, hsrc, hsp⟩ := struct_program_correct L st fuel σ σ'' hs hfr s hm
-    exact ⟨s', n, hr, by rw [hsrc]; exact h, hsp⟩
+    obtain ⟨s', n, hr, hsrc, hsp⟩ := struct_program_correct L st fuel σ o hs hfr hsc s hm
+    exact ⟨s', n, hr, by rw [hsrc]; exact h.2, hsp⟩
+
+/-- every label defined by generated code is new: allocated between the generator states before and
+    after — so no label of a statement's code occurs in code generated earlier -/
+theorem fresh_labels (st : SStmt) (lp : LoopCtx) (g : GState) :
+    ∀ l ∈ labels (gen lp g st).1, g.ctr l.kind.ctr < l.idx ∧ l.idx ≤ (gen lp g st).2.ctr l.kind.ctr :=
+  (gen_fresh st lp g).2
 
 /-- indexed addressing in the zero page: as long as base + subscript stays below $100 the address the 6502
     computes for `zp,X` (which wraps inside the zero page) is the plain sum the model uses -/
@@ -134,12 +171,6 @@ theorem indexed_zero_page_no_wrap_y (s : Cpu) (a : Word) (h : a.toNat + s.y.toNa
   have hy := s.y.isLt
   simp [BitVec.toNat_add, BitVec.toNat_setWidth]
   omega
-
-/-- every label defined by generated code is new: allocated between the generator states before and
-    after — so no label of a statement's code occurs in code generated earlier -/
-theorem fresh_labels (st : SStmt) (g : GState) :
-    ∀ l ∈ labels (gen g st).1, g.ctr l.kind.ctr < l.idx ∧ l.idx ≤ (gen g st).2.ctr l.kind.ctr :=
-  (gen_fresh st g).2
 
 /-- the operator tables of `generate_condition_ex` mean what their names say -/
 theorem negate_means_not (op : COp) (a b : Byte) : op.negate.eval a b = !op.eval a b := negate_eval op a b
@@ -177,13 +208,33 @@ example : rgenText (fun _ => true) (.bin (.el "t" (.k 2)) .add (el "t" .x) .x) =
 example : rgenText (fun _ => true) (.asg (.el "t" .x) .y) = [(.STY, "t,X")] := by decide
 example : rgenText (fun _ => false) (.asg (.el "t" .x) .y) = [(.TYA, ""), (.STA, "t,X")] := by decide
 example : rgenText (fun _ => true) (.inc (.el "t" .y)) = [(.LDA, "t,Y"), (.CLC, ""), (.ADC, "#1"), (.STA, "t,Y")] := by decide
-example : ((gen {} ademo).1).length = 26 := by decide
+example : ((gen none {} ademo).1).length = 26 := by decide
 example : SInFragment sdemo = true := by decide
-example : ((gen {} sdemo).1.map GLine.text).length = 44 := by decide
+example : ((gen none {} sdemo).1.map GLine.text).length = 44 := by decide
 example (L : Layout) (σ : SrcSt) (h : σ.x = 1) :
-    sem L 4 σ (.doWhile (.flat (.dec .x)) (.truth .x)) = some { σ with x := 0 } := by
+    sem L 4 σ (.doWhile (.flat (.dec .x)) (.truth .x)) = some (.norm, { σ with x := 0 }) := by
   simp [sem, rspec, evalCond, wr, rval, LV.ra, h]
-example (L : Layout) (σ : SrcSt) : ∃ σ', sem L 3 σ (.ifElse (.truth .y) (.flat (.inc (.var "b"))) (.flat (.dec (.var "b")))) = some σ' := by
+example (L : Layout) (σ : SrcSt) : ∃ o, sem L 3 σ (.ifElse (.truth .y) (.flat (.inc (.var "b"))) (.flat (.dec (.var "b")))) = some o := by
   simp only [sem]; split <;> exact ⟨_, rfl⟩
+
+/-- stage 5: `break` and `continue` in every kind of loop -/
+def bdemo : SStmt :=
+  .seq (.while (.truth (.var "a")) (.seq (.flat (.dec (.var "a"))) (.ifThen (.cmp .eq (va "a") (ca 3)) .brk)))
+  (.seq (.doWhile (.seq (.flat (.inc .x)) (.ifElse (.cmp .lt .x (ca 5)) .cont (.flat (.inc (.var "c"))))) (.cmp .ne .x (ca 9)))
+        (.for (.asg .y (ca 0)) (.cmp .lt .y (ca 8)) (.inc .y) (.seq (.ifThen (.truth (.var "b")) .cont) (.ifThen (.cmp .eq .y (ca 6)) .brk))))
+example : SInFragment bdemo = true ∧ Scoped false bdemo = true := by decide
+/-- the `.dowhilecondition` label exists exactly when the body has a `continue` of its own -/
+example : (labels (gen none {} (.doWhile (.ifThen (.truth .x) .cont) (.truth .y))).1).map Lbl.text
+    = [".dowhile1", ".ifend1", ".dowhilecondition1", ".dowhileend1"] := by decide
+example : (labels (gen none {} (.doWhile (.ifThen (.truth .x) .brk) (.truth .y))).1).map Lbl.text
+    = [".dowhile1", ".ifend1", ".dowhileend1"] := by decide
+/-- a loop left by `break`: the source meaning and hence the run of the code -/
+example (L : Layout) (σ : SrcSt) :
+    sem L 5 σ (.while (.truth .x) (.seq (.flat (.asg .y (ca 7))) .brk)) =
+      some (.norm, if σ.x != 0 then { σ with y := 7 } else σ) := by
+  by_cases h : σ.x = 0
+  · simp [sem, rspec, evalCond, wr, rval, LV.ra, val, ca, h]
+  · have h' : ¬ σ.x = 0#8 := h
+    simp [sem, rspec, evalCond, wr, rval, LV.ra, val, ca, h']
 
 end CV.C01
